@@ -102,7 +102,9 @@ func programs() []*Program {
 	add(&Program{Name: "P-cast", Quick: true,
 		File: func() *FileSpec {
 			c := msg("Cs", nil, fld("CS", TString).cast("MyString"), fld("CI", TInt32).cast("MyInt"),
-				fld("CSL", TString).cast("MyString").rep(), fld("CIL", TInt32).cast("MyInt").rep())
+				fld("CSL", TString).cast("MyString").rep(), fld("CIL", TInt32).cast("MyInt").rep(),
+				// ends in "Duration" (the configured duration_custom_type) but is not that type
+				fld("CF", TDouble).cast("SecondsDuration"), fld("CFL", TDouble).cast("SecondsDuration").rep(), fld("CD", TInt64).cast("MyDuration"))
 			return &FileSpec{Name: "p.proto", Msgs: []*M{c}}
 		},
 		Cfg: func() *Config { return baseConfig("Cs") }})
@@ -134,6 +136,20 @@ func programs() []*Program {
 			return &FileSpec{Name: "p.proto", Enums: []*d.EnumDescriptorProto{modeEnum()}, Msgs: []*M{leafMsg(), emptyMsg(), o1, o2}}
 		},
 		Cfg: func() *Config { return baseConfig("O1", "O2") }})
+
+	// exclusions inside oneof groups: the last declared branch of one group, the first of another
+	add(&Program{Name: "P-oneof-excl", Quick: true,
+		File: func() *FileSpec {
+			ox := msg("OX", []string{"Choice", "other"}, fld("Name", TString),
+				fld("Alpha", TString).oneof(0), fld("Beta", TInt64).oneof(0), fld("Gamma", TString).oneof(0),
+				fld("First", TString).oneof(1), fld("Second", TBool).oneof(1))
+			return &FileSpec{Name: "p.proto", Msgs: []*M{ox, msg("OXH", nil, mfld("V", "OX").nonnull(), mfld("P", "OX"))}}
+		},
+		Cfg: func() *Config {
+			c := baseConfig("OX", "OXH")
+			c.ExcludeFields = []string{"OX.Gamma", "OX.First"}
+			return c
+		}})
 
 	add(&Program{Name: "P-oneof-dur", Quick: true,
 		File: func() *FileSpec {
@@ -180,7 +196,9 @@ func programs() []*Program {
 			lim := msg("Lim", nil, fld("Burst", TInt64), fld("Zone", TString))
 			srt := msg("Srt", []string{"Kind", "second_group"},
 				fld("Apple", TString).oneof(0), fld("Banana", TInt64).oneof(1), fld("Cherry", TString).oneof(0), fld("Date", TBool).oneof(1),
-				fld("Name", TString), mfld("Lim", "Lim").embed(), fld("Tags", TString).rep())
+				fld("Name", TString), mfld("Lim", "Lim").embed(), fld("Tags", TString).rep(),
+				// Go names that differ by case only (Hostname / HostName), and an acronym
+				fld("hostname", TString), fld("host_name", TString), fld("ID", TInt64))
 			return &FileSpec{Name: "p.proto", Msgs: []*M{lim, srt}}
 		},
 		Cfg: func() *Config {
@@ -212,7 +230,7 @@ func programs() []*Program {
 				fld("TagDash", TString).json("-"), fld("TagEmpty", TBool).json(""), fld("lower_snake", TString),
 				fld("OvPath", TString), fld("OvKey", TString).json("ignored"), mfld("Sub", "NmSub"), fld("HTTPServer", TString), fld("A1B2", TInt32),
 				fld("s3_bucket", TString), fld("ipv4_addr", TString), fld("x_y_z", TBool), fld("oauth2_ttl", TInt64).stddur())
-			sub := msg("NmSub", nil, fld("OvKey", TString), fld("Deep", TString))
+			sub := msg("NmSub", nil, fld("OvKey", TString).json("tagged_but_overridden"), fld("Deep", TString).json("deep_tag"))
 			return &FileSpec{Name: "p.proto", Msgs: []*M{sub, nm}}
 		},
 		Cfg: func() *Config {
@@ -239,6 +257,8 @@ func programs() []*Program {
 		File: func() *FileSpec {
 			cu := msg("Cu", nil, fld("Own", TString), fld("C", TString).custom("StrCustom").nonnull().doc(" C is custom\n"),
 				fld("CL", TBool).custom("BoolCustom").rep(), fld("CfgC", TString),
+				// a custom type whose name keeps its underscore in the default hook suffix
+				fld("CU", TString).custom("Under_Score").nonnull(),
 				// message-typed fields declared custom through the configuration: repeated, singular, map
 				mfld("Items", "Item").rep(), mfld("One", "Item"), mapfld("ByKey", mfld("v", "Item")))
 			it := msg("Item", nil, fld("Name", TString))
@@ -323,7 +343,12 @@ func programs() []*Program {
 			r := msg("R2", nil, mfld("In", "In2").nonnull(), mfld("InP", "In2"), mapfld("Top", mfld("v", "Leaf").nonnull()))
 			return &FileSpec{Name: "p.proto", Msgs: []*M{leafMsg(), in, r}}
 		},
-		Cfg: func() *Config { return baseConfig("R2") }})
+		Cfg: func() *Config {
+			c := baseConfig("R2")
+			// full-path keys through a map / a list inside a nested message, and one Message.Field key
+			c.NameOverrides = map[string]string{"R2.In.Leaves.Str": "leaf_str_in_map", "R2.InP.Ls.Num": "num_in_list", "In2.Tag": "tag_by_key"}
+			return c
+		}})
 
 	// messages declared top-down (container before the types it nests): base of the C12 selections
 	add(&Program{Name: "P-order", Quick: true,
@@ -365,13 +390,14 @@ func programs() []*Program {
 				fld("A", TString).doc(" A is required\n and validated\n"),
 				fld("B", TInt64).doc("B is computed"),
 				fld("C", TBool).doc("\n\n C is sensitive.  \r\n   Second line\twith tab \n\n"),
-				mfld("Sub", "FlSub").doc(" Sub message\n"), mfld("L", "FlSub").rep(), fld("Plain", TString))
+				mfld("Sub", "FlSub").doc(" Sub message\n"), mfld("L", "FlSub").rep(), fld("Plain", TString),
+				fld("Roles", TString).rep(), mapfld("Labels", fld("v", TString)), mapfld("Subs", mfld("v", "FlSub")), fld("Seen", TString).rep())
 			return &FileSpec{Name: "p.proto", Msgs: []*M{sub, fl}}
 		},
 		Cfg: func() *Config {
 			c := baseConfig("Fl")
-			c.RequiredFields = []string{"Fl.A", "FlSub.X"}
-			c.ComputedFields = []string{"Fl.B", "Fl.Sub.Y", "Fl.C"}
+			c.RequiredFields = []string{"Fl.A", "FlSub.X", "Fl.Roles", "Fl.Labels", "Fl.L", "Fl.Subs"}
+			c.ComputedFields = []string{"Fl.B", "Fl.Sub.Y", "Fl.C", "Fl.Seen"}
 			c.SensitiveFields = []string{"Fl.C", "FlSub.Y"}
 			c.UseStateForUnknownByDefault = true
 			c.Validators = map[string][]string{"Fl.A": {"UseMockValidator()"}, "FlSub.X": {"UseMockValidator()", "UseMockValidator()"}}
@@ -427,6 +453,20 @@ func customValue_StrCustom() attr.Value       { return hookValue{Hook: "drawn"} 
 func customValue_BoolSpecial() attr.Value     { return hookValue{Hook: "drawn"} }
 func customValue_pkgsubCfgCustom() attr.Value { return hookValue{Hook: "drawn"} }
 func customValue_ItemList() attr.Value        { return hookValue{Hook: "drawn"} }
+func customValue_Under_Score() attr.Value     { return hookValue{Hook: "drawn"} }
+func customAttrType_Under_Score() attr.Type   { return hookType{} }
+func GenSchemaUnder_Score(_ context.Context, a tfsdk.Attribute) tfsdk.Attribute { a.Type = hookType{}; return a }
+func CopyToUnder_Score(diags diag.Diagnostics, obj Under_Score, t attr.Type, v attr.Value) attr.Value {
+	countHook("CopyToUnder_Score")
+	_, ok := t.(hookType)
+	return hookValue{Hook: "CopyToUnder_Score", Arg: string(obj), TypeSeen: ok, PrevSeen: v != nil}
+}
+func CopyFromUnder_Score(diags diag.Diagnostics, tf attr.Value, obj *Under_Score) {
+	countHook("CopyFromUnder_Score")
+	if h, ok := tf.(hookValue); ok {
+		*obj = Under_Score(h.Arg)
+	}
+}
 func customValue_ItemOne() attr.Value         { return hookValue{Hook: "drawn"} }
 func customValue_ItemMap() attr.Value         { return hookValue{Hook: "drawn"} }
 
@@ -568,6 +608,8 @@ func Harness_Custom_To() {
 	vrt.Assert("C17/Cu/cfg_c:configured-custom-type-uses-hook", ok3 && c.Hook == "CopyTopkgsubCfgCustom" && c.Arg == obj.CfgC && c.TypeSeen && c.PrevSeen == prev)
 	own, ok4 := tf.Attrs["own"].(types.String)
 	vrt.Assert("C17/Cu/own:ordinary-field-unaffected", ok4 && own.Value == obj.Own)
+	cu, okU := tf.Attrs["cu"].(hookValue)
+	vrt.Assert("C17/Cu/cu:default-suffix-keeps-underscore", okU && cu.Hook == "CopyToUnder_Score" && cu.Arg == string(obj.CU) && hookCalls["CopyToUnder_Score"] == 1)
 	il, ok5 := tf.Attrs["items"].(hookValue)
 	vrt.Assert("C17/Cu/items:repeated-message-custom-uses-hook", ok5 && il.Hook == "CopyToItemList" && il.ArgLen == len(obj.Items) && il.TypeSeen && !il.PrevSeen)
 	vrt.Assert("C17/Cu/items:hook-called-once", hookCalls["CopyToItemList"] == 1)
@@ -594,7 +636,7 @@ func Harness_Custom_From() {
 	prior := vrt.String()
 	tf := types.Object{AttrTypes: attrTypes_Cu(), Attrs: map[string]attr.Value{
 		"own": types.String{Value: "x"}, "c": hookValue{Arg: arg}, "cl": hookValue{ArgLen: n}, "cfg_c": hookValue{Arg: arg},
-		"items": hookValue{ArgLen: n}, "one": hookValue{Arg: arg}, "by_key": hookValue{Arg: arg}}}
+		"items": hookValue{ArgLen: n}, "one": hookValue{Arg: arg}, "by_key": hookValue{Arg: arg}, "cu": hookValue{Arg: arg}}}
 	if missing {
 		delete(tf.Attrs, "c")
 	}
@@ -618,6 +660,7 @@ func Harness_Custom_From() {
 	}
 	vrt.Assert("C17/Cu/cl:field-is-hook-result", len(obj.CL) == n && hookCalls["CopyFromBoolSpecial"] == 1)
 	vrt.Assert("C17/Cu/cfg_c:field-is-hook-result", obj.CfgC == arg && hookCalls["CopyFrompkgsubCfgCustom"] == 1)
+	vrt.Assert("C17/Cu/cu:field-is-hook-result", string(obj.CU) == arg && hookCalls["CopyFromUnder_Score"] == 1)
 	vrt.Assert("C17/Cu/items:field-is-hook-result", len(obj.Items) == n && hookCalls["CopyFromItemList"] == 1)
 	vrt.Assert("C17/Cu/one:field-is-hook-result", obj.One != nil && obj.One.Name == arg && hookCalls["CopyFromItemOne"] == 1)
 	_, inMap := obj.ByKey[arg]
@@ -645,6 +688,13 @@ func customValue_StrCustom() attr.Value       { return sp.CustomValueForTest() }
 func customValue_BoolSpecial() attr.Value     { return sp.CustomValueForTest() }
 func customValue_pkgsubCfgCustom() attr.Value { return sp.CustomValueForTest() }
 
+func customAttrType_Under_Score() attr.Type { return sp.CustomAttrTypeForTest() }
+func customValue_Under_Score() attr.Value   { return sp.CustomValueForTest() }
+func GenSchemaUnder_Score(c context.Context, a tfsdk.Attribute) tfsdk.Attribute { return sp.GenSchemaUnder_Score(c, a) }
+func CopyToUnder_Score(d diag.Diagnostics, o sp.Under_Score, t attr.Type, v attr.Value) attr.Value {
+	return sp.CopyToUnder_Score(d, o, t, v)
+}
+func CopyFromUnder_Score(d diag.Diagnostics, tf attr.Value, o *sp.Under_Score) { sp.CopyFromUnder_Score(d, tf, o) }
 func customAttrType_ItemList() attr.Type { return sp.CustomAttrTypeForTest() }
 func customAttrType_ItemOne() attr.Type  { return sp.CustomAttrTypeForTest() }
 func customAttrType_ItemMap() attr.Type  { return sp.CustomAttrTypeForTest() }
